@@ -16,7 +16,7 @@ FrameCmd(k) == /\ i \in 1..N /\ i < TailPos
                /\ k \in 0..D(i) /\ k # fsel
                /\ fsel' = k
                /\ hist' = Append(hist, [cmd |-> "frame", k |-> k, at |-> i]) /\ ncmd' = ncmd + 1
-               /\ UNCHANGED <<i, ubp, nbk>>
+               /\ UNCHANGED <<i, ubp, nbk, sg>>
 SNext == \/ Next /\ fsel' = 0
          \/ ncmd < MaxCmd /\ \E k \in 0..MaxDepth : FrameCmd(k)
 SSpec == SInit /\ [][SNext]_svars
